@@ -50,19 +50,9 @@ Ltac nv := apply not_version; vm_compute; reflexivity.
 Lemma xkey_line_nv : forall k, is_version_line (print_xkey k) = false.
 Proof. intros. unfold print_xkey. nv. Qed.
 
-Lemma write_key_nv : forall avail k a t, write_key avail k = (a, t) -> forallb (fun l => negb (is_version_line l)) t = true.
+Lemma key_events_nv : forall ev, forallb (fun l => negb (is_version_line l)) (map print_xkey ev) = true.
 Proof.
-  intros avail k a t H. unfold write_key in H. destruct k as [d|].
-  - destruct (set_mem _ _); inversion H; subst; [reflexivity|].
-    cbn [forallb]. rewrite xkey_line_nv. reflexivity.
-  - inversion H; subst. cbn [forallb]. rewrite xkey_line_nv. reflexivity.
-Qed.
-Lemma write_keys_nv : forall ks avail a t, write_keys avail ks = (a, t) -> forallb (fun l => negb (is_version_line l)) t = true.
-Proof.
-  induction ks as [|k ks IH]; simpl; intros avail a t H.
-  - inversion H; reflexivity.
-  - destruct (write_key avail k) as [a1 t1] eqn:E1. destruct (write_keys a1 ks) as [a2 t2] eqn:E2.
-    inversion H; subst. rewrite forallb_app, (write_key_nv _ _ _ _ E1), (IH _ _ _ E2). reflexivity.
+  induction ev as [|k ev IH]; [reflexivity|]. cbn [map forallb]. rewrite xkey_line_nv, IH. reflexivity.
 Qed.
 
 Definition uri_ok (s : Segment) : bool := negb (is_version_line (sg_uri s)).
@@ -84,9 +74,8 @@ Lemma segments_lines_nv : forall segs avail, forallb uri_ok segs = true ->
 Proof.
   induction segs as [|s segs IH]; simpl; intros avail H; [reflexivity|].
   apply andb_true_iff in H. destruct H as [Hs Hr].
-  destruct (write_keys _ (sg_keys s)) as [a t] eqn:E.
-  rewrite !forallb_app, (write_keys_nv _ _ _ _ E), (segment_lines_nv _ Hs), (IH _ Hr).
-  destruct (stale_keys avail (sg_keys s)); cbn [forallb]; rewrite ?xkey_line_nv; reflexivity.
+  destruct (segment_key_events avail (sg_keys s)) as [a ev].
+  rewrite !forallb_app, key_events_nv, (segment_lines_nv _ Hs), (IH _ Hr). reflexivity.
 Qed.
 
 Lemma forallb_one : forall l, is_version_line l = false -> forallb (fun l => negb (is_version_line l)) [l] = true.
